@@ -776,29 +776,33 @@ class IDManager:
         if it is omitted, the description currently assigned to the id is recorded."""
         if upload_time is None:
             upload_time = datetime.now()
-        info = self.get_info(id)
-        if info is None:
-            return
-        if description is None:
-            description = info.description
-        with closing(self.conn.cursor()) as cursor:
-            cursor.execute(
-                f"""INSERT INTO upload
-                    (id, description, size, terminal, upload_time)
-                    VALUES (?, ?, ?, ?, ?)
-                    ON CONFLICT(id, terminal) DO UPDATE SET
-                        description=excluded.description,
-                        size=excluded.size,
-                        upload_time=excluded.upload_time
-                """,
-                (
-                    id,
-                    description,
-                    size,
-                    terminal,
-                    upload_time.isoformat(),
-                ),
-            )
+        # The lookup and the insertion happen in one transaction, so that another
+        # process cannot change or delete the id in between.
+        with self.conn:
+            with closing(self.conn.cursor()) as cursor:
+                cursor.execute("BEGIN IMMEDIATE")
+                info = self.get_info(id)
+                if info is None:
+                    return
+                if description is None:
+                    description = info.description
+                cursor.execute(
+                    f"""INSERT INTO upload
+                        (id, description, size, terminal, upload_time)
+                        VALUES (?, ?, ?, ?, ?)
+                        ON CONFLICT(id, terminal) DO UPDATE SET
+                            description=excluded.description,
+                            size=excluded.size,
+                            upload_time=excluded.upload_time
+                    """,
+                    (
+                        id,
+                        description,
+                        size,
+                        terminal,
+                        upload_time.isoformat(),
+                    ),
+                )
 
     def unmark_uploaded(self, id: int, terminal: str):
         """Forgets that the image with the given id was uploaded to the terminal."""
